@@ -28,7 +28,9 @@ KNOWN_REASONS = {
     "null-in-nonnullable": "nonnullable:null-reads-default",
     "char-embedded-nul": "char:embedded-nul-truncates",
     "f64-eq-nonidentical": "rle-dict:f64-eq-collapses-bit-patterns",
+    "interval-subday": "interval:subday-part-dropped",
 }
+UNMODELLED = ("dec", "ts", "tstz", "iv", "vec")
 
 
 # ------------------------------------------------------------------------------------------------
@@ -58,7 +60,7 @@ def parse_ans(line):
     return {"build": "ok", "col": "" if t[1] == "-" else t[1], "idx": idx, "outs": t[4:]}
 
 
-DEFAULTS = {"bool": "b:false", "i16": "i16:0", "i32": "i32:0", "i64": "i64:0", "f64": "f64:0000000000000000",
+DEFAULTS = {"dec": "dec:0", "ts": "ts:0", "tstz": "tstz:0", "iv": "iv:0:0:0", "vec": "vec:[]", "bool": "b:false", "i16": "i16:0", "i32": "i32:0", "i64": "i64:0", "f64": "f64:0000000000000000",
             "date": "date:0", "str": "s:", "blob": "blob:"}
 
 
@@ -92,6 +94,15 @@ def norm_char_nul(req):
                     return "s:" + h[:i]
         return v
     return cut, (lambda v: v)
+
+
+def norm_interval(req):
+    def f(v):
+        if v.startswith("iv:"):
+            t = v.split(":")
+            return "iv:%s:%s:0" % (t[1], t[2])
+        return v
+    return f, (lambda v: v)
 
 
 def norm_f64(req):
@@ -222,6 +233,8 @@ def classify(req, ans, same_as_model):
         norms.append(("null-in-nonnullable", norm_null_default(req)))
     if req["cw"] is not None and any(v.startswith("s:") and "00" in [v[2:][i:i + 2] for i in range(0, len(v) - 2, 2)] for v in req["vals"]):
         norms.append(("char-embedded-nul", norm_char_nul(req)))
+    if req["ty"] == "iv" and any(v.startswith("iv:") and v.split(":")[3] != "0" for v in req["vals"]):
+        norms.append(("interval-subday", norm_interval(req)))
     if req["ty"] == "f64" and req["enc"] in ("rle", "dict"):
         cls = {}
         for v in req["vals"]:
@@ -241,9 +254,20 @@ def classify(req, ans, same_as_model):
         nm = (compose([x[1][0] for x in norms]), compose([x[1][1] for x in norms]))
         if walk(req, ans, nm)[0] == "ok":
             return [x[0] for x in norms]
-    v, r, d, info = walk(req, ans)
-    if req["nullable"] and req["enc"] == "plain" and info["crossing"] and same_as_model:
-        return ["nullable-batch-crosses-block"]
+    # a batch spanning two blocks of a plain nullable column (possibly on top of the value-level
+    # mechanisms above): judged on the walk under all applicable normalisations
+    def compose(fs):
+        def f(v):
+            for g in fs:
+                v = g(v)
+            return v
+        return f
+    nm_all = (compose([x[1][0] for x in norms]), compose([x[1][1] for x in norms])) if norms else None
+    v, r, d, info = walk(req, ans, nm_all)
+    # (the vector column builder ignores the encode type: its blocks are always plain)
+    plain = req["enc"] == "plain" or req["ty"] == "vec"
+    if req["nullable"] and plain and info["crossing"] and same_as_model:
+        return ["nullable-batch-crosses-block"] + [x[0] for x in norms]
     return None
 
 
@@ -287,8 +311,10 @@ def decide(ck, reqs, impl, model, cov):
         for op in req["ops"]:
             c_ops[op.split(":")[0]] += 1
         c_blocks[min(len(A_i["idx"]), 20)] += 1
-        same = a_i.strip() == a_m.strip()
-        mvi["compared"] += 1
+        modelled = req["ty"] not in UNMODELLED
+        same = a_i.strip() == a_m.strip() or not modelled
+        if modelled:
+            mvi["compared"] += 1
         if len(req["vals"]) > 0 and len(A_i["idx"]) >= 2:
             distinct.add(req["line"])
         # --- implementation vs the property itself
@@ -310,7 +336,7 @@ def decide(ck, reqs, impl, model, cov):
                 ck.report("oracle:%s/%s%s/%s" % (r, req["enc"], "-nullable" if req["nullable"] else "", req["ty"]),
                           "the implementation breaks the round-trip property (%s): %s" % (r, d[:300]), replay=replay)
         # --- model vs the property (validates the model as a spec carrier)
-        vm, rm, dm, _ = walk(req, A_m)
+        vm, rm, dm, _ = walk(req, A_m) if modelled else ("skip", "unmodelled", "", None)
         if vm == "skip":
             mvo["skipped"] += 1
         else:
